@@ -65,6 +65,13 @@ impl<D: DependencyProvider> SolverCache<D> {
         }
     }
 
+    /// The number of `get_candidates` requests that are currently marked as
+    /// in flight (verification hooks only).
+    #[cfg(feature = "verif-hooks")]
+    pub fn verif_in_flight(&self) -> usize {
+        self.package_name_to_candidates_in_flight.borrow().len()
+    }
+
     /// Returns the [`DependencyProvider`] used by this cache.
     pub fn provider(&self) -> &D {
         &self.provider
